@@ -50,6 +50,11 @@ def obligations(tier):
                 stub_realloc=False, functions=['snappy_emit_copy'], bounds='every offset in [1, SNAPPY_MAX_OFFSET] and every match length 4..200 (symbolic)'))
     o.append(E1('lemma/snappy-emit-literal', 'harness/e1/c09_emit.c', [], ['-DMODE=2'], unwind=72, timeout=300, includes_source=['src/compression/snappy.c'],
                 stub_realloc=False, functions=['snappy_emit_literal'], bounds='every literal of 1..70 symbolic bytes'))
+    # literal headers of long literals: the length-form boundaries at 256, 65536 and 2^24 bytes (added after seeded C05-snappy-literal-65537)
+    for lo, hi in ((1, 300), (65500, 65600), (16777180, 16777260)):
+        o.append(E1('lemma/snappy-emit-literal-header/len%d-%d' % (lo, hi), 'harness/e1/c09_emit.c', [], ['-DMODE=3', '-DLLO=%d' % lo, '-DLHI=%d' % hi], unwind=8, timeout=300,
+                    includes_source=['src/compression/snappy.c'], stub_realloc=False, functions=['snappy_emit_literal'],
+                    bounds='every literal length in [%d, %d]; literal content an arbitrary heap object; header bytes and end pointer per the Snappy format description' % (lo, hi)))
     # decoder halves of the round trip beyond the reach of the bounded compress -> decompress runs: carquet's decompressors on streams of an
     # independent script encoder with match offsets 1..15 and match lengths 16..20 (wide-copy fast paths); obligations shared with C10
     # (added after seeded C09-lz4-decode-16byte-chunks, which the n <= 24 round trips cannot reach)
